@@ -39,6 +39,11 @@ pub struct PThread {
     pub plants: Vec<Plant>,
     /// spinner running inside extra mapping k (must be executable) instead of a parked thread
     pub spin_in_map: Option<u16>,
+    /// a deep stack: 260..519 pages (1.02..2.03 MiB) with the stack pointer in its first two pages and
+    /// one more planted pointer (into the principal mapping, else into the first extra mapping) in the
+    /// last 4000 bytes - more than a megabyte above the stack pointer
+    #[serde(default)]
+    pub deep: Option<u16>,
 }
 
 #[derive(Debug, Clone, PartialEq, Eq, Hash, Serialize, Deserialize)]
@@ -117,9 +122,13 @@ pub fn run_case(c: &PCase) -> Result<PObs, Verdict> {
     let (_, words) = b.add_anon(1, 3, 0);
     let mut spinners = 0;
     for (i, t) in c.threads.iter().enumerate() {
-        let st = b.add_stack(t.stack_pages as u64 % 8 + 1, true, 0x700 + i as u64);
+        let deep = t.deep.filter(|_| t.spin_in_map.is_none());
+        let st = b.add_stack(match deep { Some(k) => 260 + k as u64 % 260, None => t.stack_pages as u64 % 8 + 1 }, true, 0x700 + i as u64);
         let pages = (st.end - st.base) / PAGE;
-        let mut sp = st.base + (pick(t.sp_page, pages as usize) as u64) * PAGE + (t.sp_inpage as u64 % PAGE);
+        let mut sp = st.base + (pick(t.sp_page, if deep.is_some() { 2 } else { pages as usize }) as u64) * PAGE + (t.sp_inpage as u64 % PAGE);
+        if let (Some(k), Some((s, e))) = (deep, principal.or(maps.first().map(|m| (m.0, m.1)))) {
+            b.spec.pokes.push((st.end - 8 * (1 + k as u64 % 500), s + ((e - s) / 2 & !7)));
+        }
         let spin = t.spin_in_map.filter(|_| spinners < 2).and_then(|k| {
             let cands: Vec<&(u64, u64, bool)> = maps.iter().filter(|m| m.2).collect();
             if cands.is_empty() { None } else { Some(*cands[pick(k, cands.len())]) }
@@ -226,8 +235,9 @@ pub fn thread_strategy() -> impl Strategy<Value = PThread> {
             0..8,
         ),
         proptest::option::weighted(0.12, any::<u16>()),
+        proptest::option::weighted(0.03, any::<u16>()),
     )
-        .prop_map(|(stack_pages, sp_page, sp_inpage, plants, spin_in_map)| PThread { stack_pages, sp_page, sp_inpage, plants, spin_in_map })
+        .prop_map(|(stack_pages, sp_page, sp_inpage, plants, spin_in_map, deep)| PThread { stack_pages, sp_page, sp_inpage, plants, spin_in_map, deep })
 }
 
 pub fn case_strategy(force_sanitize: Option<bool>, force_skip: Option<bool>, force_limit: Option<bool>) -> impl Strategy<Value = PCase> {
